@@ -147,6 +147,10 @@ type csScenario struct {
 	// reconnection GET is accepted by the peer but never answered (no response headers) for as long as the
 	// connection lives; the call under test is made once that GET is pending.  The streams of a connection are
 	// independent: what the model says of the stream under test does not depend on bg.
+	// "call": a SECOND call (tool "bg") is made at the same moment; its response stream (events zq_0 priming, zq_1 a
+	// notification) is cut at the same virtual time as the first body of the stream under test, both reconnect, and the
+	// second stream's resumption GET (Last-Event-ID zq_1) is answered SLOWLY (30 virtual seconds) with a second
+	// notification and the second call's response. Reported in the `bg` record.
 	bg string
 }
 
@@ -255,7 +259,7 @@ func csParseScenario(line string) (*csScenario, error) {
 			}
 			s.first = a
 		case "bg":
-			if v != "sahang" {
+			if v != "sahang" && v != "call" {
 				return nil, fmt.Errorf("bad bg %q", v)
 			}
 			s.bg = v
@@ -369,6 +373,8 @@ type csServer struct {
 	sent   int // high-water mark of bytes of the full stream handed to the client (for header-less standalone GETs)
 	bad    []string
 	cancelCall func() // ends the caller's context (ctxc / ctxw)
+	bgID      string   // JSON of the second call's request id (bg=call)
+	bgGets    []string // Last-Event-IDs of the second stream's resumption GETs
 	bgSeen    int // GETs of the background stream (bg)
 	bgPending int // of which: accepted and not answered
 }
@@ -629,6 +635,37 @@ func (sv *csServer) gate(k int) chan struct{} {
 	return nil
 }
 
+// the second call's log (bg=call)
+func (sv *csServer) bgLog() []csItem {
+	sv.mu.Lock()
+	id := sv.bgID
+	sv.mu.Unlock()
+	return []csItem{
+		{id: "zq_0", data: ""},
+		{id: "zq_1", data: csNotif(1001)},
+		{id: "zq_2", data: csNotif(1002)},
+		{id: "zq_3", data: fmt.Sprintf(`{"jsonrpc":"2.0","id":%s,"result":{"content":[{"type":"text","text":"RB"}]}}`, id)},
+	}
+}
+
+// bgBody: the second call's stream from item `from`; the first body (from 0) ends, cleanly, after zq_1
+func (sv *csServer) bgBody(req *http.Request, from int) *http.Response {
+	log := sv.bgLog()
+	to := len(log)
+	if from == 0 {
+		to = 2
+	}
+	var data []byte
+	for _, it := range log[from:to] {
+		data = append(data, csRender(it)...)
+	}
+	h := http.Header{}
+	h.Set("Content-Type", "text/event-stream")
+	h.Set(sessionIDHeader, "sess")
+	return &http.Response{StatusCode: 200, Status: "OK", Header: h, Request: req, Proto: "HTTP/1.1", ProtoMajor: 1, ProtoMinor: 1,
+		Body: &csBody{data: data, term: "eof", chunk: sv.s.chunk, ctx: req.Context()}}
+}
+
 func (sv *csServer) nextAttempt() (csAttempt, bool) {
 	sv.mu.Lock()
 	defer sv.mu.Unlock()
@@ -675,6 +712,24 @@ func (sv *csServer) RoundTrip(req *http.Request) (*http.Response, error) {
 			sv.mu.Unlock()
 			return nil, req.Context().Err()
 		}
+		if vals := req.Header.Values(lastEventIDHeader); sv.s.bg == "call" && len(vals) > 0 && strings.HasPrefix(vals[0], "zq_") {
+			// the second call's stream is resumed: a slow peer
+			select {
+			case <-time.After(30 * time.Second):
+			case <-req.Context().Done():
+				return nil, req.Context().Err()
+			}
+			sv.mu.Lock()
+			sv.bgGets = append(sv.bgGets, vals[0])
+			sv.mu.Unlock()
+			from := 0
+			for i, it := range sv.bgLog() {
+				if it.id == vals[0] {
+					from = i + 1
+				}
+			}
+			return sv.bgBody(req, from), nil
+		}
 		if sv.s.kind == "post" {
 			sv.mu.Lock()
 			seen := sv.saSeen
@@ -713,6 +768,13 @@ func (sv *csServer) RoundTrip(req *http.Request) (*http.Response, error) {
 			idb, _ := json.Marshal(r.ID.Raw())
 			return sv.json(req, 200, fmt.Sprintf(`{"jsonrpc":"2.0","id":%s,"result":%s}`, idb, res)), nil
 		case methodCallTool:
+			if sv.s.bg == "call" && strings.Contains(string(r.Params), `"name":"bg"`) {
+				idb, _ := json.Marshal(r.ID.Raw())
+				sv.mu.Lock()
+				sv.bgID = string(idb)
+				sv.mu.Unlock()
+				return sv.bgBody(req, 0), nil
+			}
 			if got, _ := r.ID.Raw().(int64); got != csCallID {
 				sv.note(fmt.Sprintf("call-id-%v", r.ID.Raw()))
 			}
@@ -776,6 +838,8 @@ type csResult struct {
 	atret     int
 	end       string
 	leak      string
+	bgEnd     string
+	bgGot     []string
 	bad       []string
 }
 
@@ -805,7 +869,7 @@ func csRun(t *testing.T, s *csScenario) (res csResult) {
 			}()
 			sv.start = time.Now()
 			var mu sync.Mutex
-			var delivered []string
+			var delivered, bgDelivered []string
 			known := map[string]string{}
 			for _, it := range s.log {
 				if strings.HasPrefix(it.label, "n") {
@@ -821,7 +885,11 @@ func csRun(t *testing.T, s *csScenario) (res csResult) {
 						}
 					}
 					mu.Lock()
-					delivered = append(delivered, lbl)
+					if f, ok := r.Params.Data.(float64); ok && f >= 1000 {
+						bgDelivered = append(bgDelivered, fmt.Sprintf("b%d", int(f)-1000))
+					} else {
+						delivered = append(delivered, lbl)
+					}
 					mu.Unlock()
 				},
 			})
@@ -849,7 +917,7 @@ func csRun(t *testing.T, s *csScenario) (res csResult) {
 			sv.mu.Lock()
 			sv.cancelCall = cancelCall
 			sv.mu.Unlock()
-			if s.bg != "" {
+			if s.bg == "sahang" {
 				// let the background stream end and start its reconnection; the call is made while that GET is pending
 				time.Sleep(time.Minute)
 				synctest.Wait()
@@ -899,8 +967,38 @@ func csRun(t *testing.T, s *csScenario) (res csResult) {
 				mu.Unlock()
 				done <- outcome{e, n}
 			}()
+			bgDone := make(chan string, 1)
+			if s.bg == "call" {
+				synctest.Wait() // the call under test has been POSTed (it is request 2); the second call follows at the same virtual time
+				go func() {
+					r, err := cs.CallTool(ctx, &CallToolParams{Name: "bg"})
+					switch {
+					case err != nil:
+						bgDone <- "err:" + csErrKind(err)
+					case len(r.Content) == 1:
+						if tc, ok := r.Content[0].(*TextContent); ok {
+							bgDone <- "result:" + tc.Text
+							return
+						}
+						fallthrough
+					default:
+						bgDone <- "result:?"
+					}
+				}()
+			}
 			time.Sleep(csHorizon)
 			synctest.Wait()
+			if s.bg == "call" {
+				select {
+				case e := <-bgDone:
+					res.bgEnd = e
+				default:
+					res.bgEnd = "hang"
+				}
+				mu.Lock()
+				res.bgGot = append([]string(nil), bgDelivered...)
+				mu.Unlock()
+			}
 			select {
 			case o := <-done:
 				res.end, res.atret = o.end, o.atret
@@ -1004,6 +1102,13 @@ func csEmit(out *verifOut, cs string, s *csScenario, r csResult, extra ...string
 	}
 	out.line(cs, fmt.Sprintf("delivered atret=%d", r.atret), dl, "delivered")
 	out.line(cs, "end", r.end, "end")
+	if s.bg == "call" {
+		g := strings.Join(r.bgGot, ",")
+		if g == "" {
+			g = "-"
+		}
+		out.line(cs, "bg sent=b1,b2", fmt.Sprintf("got=%s end=%s", g, r.bgEnd), "bg-call", "bgend-"+strings.SplitN(r.bgEnd, ":", 2)[0])
+	}
 	out.line(cs, "leak", r.leak, "leak")
 }
 
@@ -1179,6 +1284,38 @@ func csGenerate(emit func(*csScenario, string)) {
 						continue
 					}
 					put(&csScenario{kind: "post", mr: gi % 3, log: base.log, first: csAttempt{kind: "ok", cut: cut, term: term}, script: sc, bg: "sahang"}, "g")
+				}
+			}
+		}
+	}
+
+	// ---- family g2: TWO call streams cut at once, each reconnecting, the second one's resumption slow (30 s): every
+	// event boundary and one offset inside every event x {eof, err} x 4 reconnect scripts that do not fail the connection
+	{
+		base := &csScenario{kind: "post", log: csBaseLog("post")}
+		off := base.offsets()
+		rest := finalOf("post")
+		scripts := [][]csAttempt{
+			{rest},
+			{{kind: "terr"}, rest},
+			{{kind: "ok", cut: 0, term: "eof"}, rest},
+			{{kind: "ok", cut: off[2] - off[1], term: "err"}, {kind: "terr"}, rest},
+		}
+		gi := 0
+		for i := 0; i < len(off); i++ {
+			cuts := []int{off[i]}
+			if i+1 < len(off) {
+				cuts = append(cuts, (off[i]+off[i+1])/2)
+			}
+			for _, cut := range cuts {
+				for _, term := range terms {
+					for si, sc := range scripts {
+						gi++
+						if c01 && si%2 == 1 {
+							continue
+						}
+						put(&csScenario{kind: "post", mr: []int{0, 2, 3}[gi%3], log: base.log, first: csAttempt{kind: "ok", cut: cut, term: term}, script: sc, bg: "call"}, "g2")
+					}
 				}
 			}
 		}
